@@ -125,6 +125,15 @@ func (ch *Chain) keyName(consAddr []byte) string {
 func (ch *Chain) feed(updates []abci.ValidatorUpdate) {
 	v := ch.V
 	v.Batch = []any{}
+	raw := "updates="
+	for _, u := range updates {
+		bz, err := u.Marshal()
+		if err != nil {
+			panic(err)
+		}
+		raw += fmt.Sprintf("%x;", bz)
+	}
+	ch.F.LastRaw = raw
 	for _, u := range updates {
 		pk, err := cryptocodec.FromCmtProtoPublicKey(u.PubKey)
 		name := "?"
